@@ -71,6 +71,24 @@ fn plans(th: bool) -> Vec<Plan> {
         }
         v.push(Plan { tracker, point: "prometheus-bind-failure", mode: "setup", nth: 1, workers: 1, traffic: false, signal: false });
     }
+    // many workers: the supervision loop has to get round every handle in time, whatever the position of the stopped
+    // worker in its list (7 + 7 workers plus metrics and signals = 16 supervised threads; udp: 12 socket workers)
+    for tracker in ["http", "ws"] {
+        let w = 7;
+        v.push(Plan { tracker, point: "common/prometheus/start", mode: "panic", nth: 1, workers: w, traffic: false, signal: false });
+        v.push(Plan { tracker, point: "common/prometheus/loop", mode: "return", nth: 12, workers: w, traffic: true, signal: false });
+        v.push(Plan { tracker, point: "prometheus-bind-failure", mode: "setup", nth: 1, workers: w, traffic: false, signal: false });
+        v.push(Plan { tracker, point: if tracker == "http" { "http/signals/signal" } else { "ws/signals/signal" }, mode: "panic", nth: 1, workers: w, traffic: false, signal: true });
+        v.push(Plan { tracker, point: if tracker == "http" { "http/socket/start" } else { "ws/socket/start" }, mode: "return", nth: w, workers: w, traffic: false, signal: false });
+        v.push(Plan { tracker, point: if tracker == "http" { "http/swarm/start" } else { "ws/swarm/start" }, mode: "panic", nth: w, workers: w, traffic: false, signal: false });
+    }
+    for point in ["udp/signals/signal", "udp/cleaning/loop", "udp/statistics/loop", "common/prometheus/start", "prometheus-bind-failure", "udp/socket/start"] {
+        let mode = if point == "prometheus-bind-failure" { "setup" } else { "panic" };
+        v.push(Plan { tracker: "udp-mio", point, mode, nth: if point == "udp/socket/start" { 12 } else { 1 }, workers: 12, traffic: false, signal: point == "udp/signals/signal" });
+        if th {
+            v.push(Plan { tracker: "udp-uring", point, mode, nth: if point == "udp/socket/start" { 12 } else { 1 }, workers: 12, traffic: false, signal: point == "udp/signals/signal" });
+        }
+    }
     // without hooks: a socket that cannot be set up (address not local)
     for tracker in ["udp-mio", "udp-uring", "http", "ws"] {
         v.push(Plan { tracker, point: "bind-failure", mode: "setup", nth: 1, workers: 1, traffic: false, signal: false });
@@ -198,7 +216,7 @@ fn run_plan(p: &Plan) -> Result<(String, i64), (String, String)> {
 
 pub fn main(args: &Args) -> ! {
     let mut run = Run::new(args, "fault_enumeration");
-    run.set("rule", "fault plan = tracker {udp-mio, udp-uring, http, ws} x fault point (hook H6 probes in every worker kind: socket start / loop / accept / connection task, swarm start / request handler / control handler / cleaning timer, cleaning thread, statistics thread, signal thread; hook H9 in the metrics (prometheus) thread: before serving and on a 100 ms tick while serving) x mode {panic at every point; return at points where returning ends the worker function} x time {first hit, after requests were served} x workers {1, 2}; plus, without hooks, a tracker socket and a metrics endpoint that cannot be set up (address not local). Each plan is one child process running run(); non-trivial = the fault point was actually reached (a plan whose point is never reached is exit 2); distinct = distinct plans");
+    run.set("rule", "fault plan = tracker {udp-mio, udp-uring, http, ws} x fault point (hook H6 probes in every worker kind: socket start / loop / accept / connection task, swarm start / request handler / control handler / cleaning timer, cleaning thread, statistics thread, signal thread; hook H9 in the metrics (prometheus) thread: before serving and on a 100 ms tick while serving) x mode {panic at every point; return at points where returning ends the worker function} x time {first hit, after requests were served} x workers {1, 2}, and the workers at the end of the supervised list (metrics, signals, cleaning, statistics, the last socket / swarm worker to start) with 7 + 7 workers (http, ws) and 12 socket workers (udp); plus, without hooks, a tracker socket and a metrics endpoint that cannot be set up (address not local). Each plan is one child process running run(); non-trivial = the fault point was actually reached (a plan whose point is never reached is exit 2); distinct = distinct plans");
     run.assume("a worker that hangs without finishing is not in the property; a panic inside the metrics thread's detached render task is caught by tokio and does not stop the worker, so it is not a fault plan");
     let ps = plans(args.tier.thorough());
     let mut results: Vec<Result<(String, i64), (String, String)>> = par_map(&ps, 16, |p| run_plan(p));
